@@ -1,5 +1,4 @@
 import Props.GenCapstoneAppend
 open Model.Capstone
-#print axioms translated_append_plan
 #print axioms translated_append
 #print axioms Model.SlicesGen.appendTail_eq
